@@ -146,3 +146,52 @@ func ZZ_C17_normal() {
 		zzsym.Assert(len(prods) >= 1, "normal-mode-produces")
 	}
 }
+
+// ZZ_C17_start: the real AggregationLoop is started (or restarted) `age`
+// units after the time of the last block (0..block interval+5), in lazy or
+// normal mode, with a notification pending at start or not: the first block
+// after the start is not produced before one block interval has passed since
+// the last block, and is produced once it has (lazy: on the idle timer armed
+// at start; normal: on the block timer).
+func ZZ_C17_start() {
+	u := zzUnit()
+	zzsym.FreezeClock()
+	zzsym.SetClockNs(1 << 40)
+	bt := int64(10)
+	age := zzsym.I64("age")
+	zzsym.Assume(age >= 0 && age <= bt+5)
+	e := zzNewEnv(1)
+	t0 := zzsym.NowNs()
+	last := zzsym.TimeOf(t0 - age*int64(u))
+	e.store.height = 3
+	m := e.zzManager(types.State{ChainID: e.chainID, InitialHeight: 1, LastBlockHeight: 3, LastBlockTime: last})
+	m.config.Node.LazyMode = zzsym.Bool("lazy")
+	m.config.Node.BlockTime.Duration = time.Duration(bt) * u
+	m.config.Node.LazyBlockInterval.Duration = 25 * u
+	var starts []int64
+	m.publishBlock = func(ctx context.Context) error {
+		starts = append(starts, (zzsym.NowNs()-t0)/int64(u))
+		return nil
+	}
+	if zzsym.Bool("notified-at-start") {
+		m.NotifyNewTransactions()
+	}
+	ctx, cancel := context.WithCancel(context.Background())
+	zzsym.At(t0+40*int64(u), cancel)
+	errCh := make(chan error, 1)
+	m.AggregationLoop(ctx, errCh)
+	cancel()
+	zzsym.Reach("loop-stopped")
+	zzsym.Assert(len(starts) > 0, "produces-after-start")
+	if len(starts) > 0 {
+		zzsym.Assert(starts[0]+age >= bt, "first-block-after-start-not-before-one-block-interval")
+		wait := bt - age
+		if wait < 0 {
+			wait = 0
+		}
+		zzsym.Assert(starts[0] <= wait+1, "first-block-after-start-is-due-at-the-block-time")
+	}
+	for i := 1; i < len(starts); i++ {
+		zzsym.Assert(starts[i]-starts[i-1] >= bt, "at-most-one-block-per-block-interval")
+	}
+}
